@@ -218,3 +218,24 @@ Section World.
     | Do a k => let '(x, w1) := wexec a w in wrun (k x) w1 ((a, x) :: h)
     end.
 End World.
+
+(** * A cleaner whose process dies *)
+(** the body stops just before its (m+1)-th Storage call; nothing more happens -- in particular no Unlock *)
+Fixpoint cutl (m : nat) (p : prog) : prog :=
+  match p with
+  | Done r => Done r
+  | Do a k =>
+      if logs a then match m with O => Done RNil | S m' => Do a (fun x => cutl m' (k x)) end
+      else Do a (fun x => cutl m (k x))
+  end.
+(** CleanStorage in a process that dies when the run's call number [n] (Lock = 0) begins *)
+Definition cleank (e : env) (n : nat) (o : opts) (clk : nat -> Z) (s0 : store) : st :=
+  match n with
+  | O => St s0 []
+  | S m =>
+      let '(ok, s1) := do_lock e (St s0 []) in
+      if ok then snd (run e clk (cutl m (clean_locked_prog o)) s1) else s1
+  end.
+(** the same death expressed in the environment of the model [clean] *)
+Definition with_kill (e : env) (n : nat) : env :=
+  Env (faults e) (efaults e) (cancel_at e) (lfe e) (pfaults e) (Some n).
